@@ -2,7 +2,7 @@
 From Coq Require Import NArith List Bool Sorting.Permutation Sorting.Sorted.
 From DV Require Import Base.Outcome Base.Bytes Base.Lex Base.Names C11.Sha C17.Model
   C12.Gen C12.Model C12.Digest C12.Spec C12.ProofsSort C12.ProofsSigned C12.ProofsInj
-  C12.ProofsKey C12.ProofsCrypto C12.KeyModel C12.ProofsRsa C12.ZoneModel C12.ProofsZone C12.ProofsC04 C12.ProofsC05 C12.ProofsZoneSorted C12.SortedModel C12.ProofsSortedRecords C12.ProofsWholeZone C12.ProofsWholeZone3.
+  C12.ProofsKey C12.ProofsCrypto C12.KeyModel C12.ProofsRsa C12.ZoneModel C12.ProofsZone C12.ProofsC04 C12.ProofsC05 C12.ProofsZoneSorted C12.SortedModel C12.ProofsSortedRecords C12.ProofsWholeZone C12.ProofsWholeZone3 C12.ProofsV.
 Import ListNotations.
 Local Open Scope N_scope.
 
@@ -361,3 +361,89 @@ Theorem C12_whole_zone_nsec3_authoritative_rrsets_signed :
   exists o, In (o, t) sigs.
 Proof. exact whole_zone3_authoritative_rrsets_signed. Qed.
 Print Assumptions C12_whole_zone_nsec3_authoritative_rrsets_signed.
+
+Theorem C12_signer_outcomes_any_records : forall k rrset inc exp,
+  inc < 4294967296 -> exp < 4294967296 ->
+  (sign_rrset k rrset inc exp = Err 3 /\ rrset = []) \/
+  (sign_rrset k rrset inc exp = Panic 2 /\
+     exists a b, In a rrset /\ In b rrset /\ r_ttl a <> r_ttl b) \/
+  (sign_rrset k rrset inc exp = Err 1 /\ exists r, In r rrset /\ r_type r = 46) \/
+  (sign_rrset k rrset inc exp = Err 2 /\ rrset <> [] /\ serial_partial_cmp exp inc = Ok (Some Lt)) \/
+  (exists s scratch, sign_rrset k rrset inc exp = Ok (s, scratch) /\ rrset <> [] /\
+                     serial_partial_cmp exp inc <> Ok (Some Lt)).
+Proof. exact signer_outcomes_any_records. Qed.
+Print Assumptions C12_signer_outcomes_any_records.
+
+Theorem C12_labels_assert_never_fires : forall o : name,
+  rrsig_label_count o < N.of_nat (length o) + 1.
+Proof. exact label_count_lt. Qed.
+Print Assumptions C12_labels_assert_never_fires.
+
+Theorem C12_signer_order_and_case_insensitive : forall k o t c ttl rrset rrset' inc exp s scratch,
+  valid_abs o -> uniform o t c ttl rrset -> uniform o t c ttl rrset' ->
+  Permutation (map r_rdata rrset) (map r_rdata rrset') ->
+  inc < 4294967296 -> exp < 4294967296 ->
+  sign_rrset k rrset inc exp = Ok (s, scratch) ->
+  sign_rrset k rrset' inc exp = Ok (s, scratch).
+Proof. exact signer_order_and_case_insensitive. Qed.
+Print Assumptions C12_signer_order_and_case_insensitive.
+
+Theorem C12_algorithm_mismatch_rejected : forall (public : Type)
+  (verify : public -> bytes -> bytes -> bool) (pk : public) s signature data dalg,
+  s_alg s <> dalg -> verify_signed_data public verify pk dalg s signature data = Err 1.
+Proof. exact algorithm_mismatch_rejected. Qed.
+Print Assumptions C12_algorithm_mismatch_rejected.
+
+Theorem C12_altered_rrsig_field_rejected : forall (secret public : Type)
+  (sign : secret -> bytes -> bytes) (verify : public -> bytes -> bytes -> bool) (sk : secret) (pk : public)
+  k o t c ttl rrset inc exp s scratch,
+  (forall m m', verify pk m' (sign sk m) = true -> m' = m) ->
+  valid_abs o -> uniform o t c ttl rrset ->
+  sign_rrset k rrset inc exp = Ok (s, scratch) ->
+  forall dalg s' seen seen', resolver_view o t c rrset seen ->
+    wf_sig s -> wf_sig s' -> Forall wf_rr seen -> Forall wf_rr seen' ->
+    sig_fields s' <> sig_fields s ->
+    verify_signed_data public verify pk dalg s' (sign sk scratch) (signed_data s' seen') <> Ok tt.
+Proof. exact altered_rrsig_field_rejected. Qed.
+Print Assumptions C12_altered_rrsig_field_rejected.
+
+Theorem C12_altered_rdata_rejected : forall (secret public : Type)
+  (sign : secret -> bytes -> bytes) (verify : public -> bytes -> bytes -> bool) (sk : secret) (pk : public)
+  k o t c ttl rrset inc exp s scratch,
+  (forall m m', verify pk m' (sign sk m) = true -> m' = m) ->
+  valid_abs o -> uniform o t c ttl rrset ->
+  sign_rrset k rrset inc exp = Ok (s, scratch) ->
+  forall dalg s' l1 r r' l2, resolver_view o t c rrset (l1 ++ r :: l2) ->
+    wf_sig s -> wf_sig s' -> Forall wf_rr (l1 ++ r :: l2) -> Forall wf_rr (l1 ++ r' :: l2) ->
+    r_rdata r' <> r_rdata r ->
+    verify_signed_data public verify pk dalg s' (sign sk scratch) (signed_data s' (l1 ++ r' :: l2)) <> Ok tt.
+Proof. exact altered_rdata_rejected. Qed.
+Print Assumptions C12_altered_rdata_rejected.
+
+Theorem C12_changed_record_count_rejected : forall (secret public : Type)
+  (sign : secret -> bytes -> bytes) (verify : public -> bytes -> bytes -> bool) (sk : secret) (pk : public)
+  k o t c ttl rrset inc exp s scratch,
+  (forall m m', verify pk m' (sign sk m) = true -> m' = m) ->
+  valid_abs o -> uniform o t c ttl rrset ->
+  sign_rrset k rrset inc exp = Ok (s, scratch) ->
+  forall dalg s' seen seen', resolver_view o t c rrset seen ->
+    wf_sig s -> wf_sig s' -> Forall wf_rr seen -> Forall wf_rr seen' ->
+    length seen' <> length rrset ->
+    verify_signed_data public verify pk dalg s' (sign sk scratch) (signed_data s' seen') <> Ok tt.
+Proof. exact changed_record_count_rejected. Qed.
+Print Assumptions C12_changed_record_count_rejected.
+
+Theorem C12_altered_type_class_owner_rejected : forall (secret public : Type)
+  (sign : secret -> bytes -> bytes) (verify : public -> bytes -> bytes -> bool) (sk : secret) (pk : public)
+  k o t c ttl rrset inc exp s scratch,
+  (forall m m', verify pk m' (sign sk m) = true -> m' = m) ->
+  valid_abs o -> uniform o t c ttl rrset ->
+  sign_rrset k rrset inc exp = Ok (s, scratch) ->
+  forall dalg s' seen seen' r', resolver_view o t c rrset seen ->
+    wf_sig s -> wf_sig s' -> Forall wf_rr seen -> Forall wf_rr seen' ->
+    In r' seen' ->
+    (r_type r' <> t \/ r_class r' <> c \/
+     canon (rfc_name (s_labels s') (r_owner r')) <> canon o) ->
+    verify_signed_data public verify pk dalg s' (sign sk scratch) (signed_data s' seen') <> Ok tt.
+Proof. exact altered_type_class_owner_rejected. Qed.
+Print Assumptions C12_altered_type_class_owner_rejected.
